@@ -161,9 +161,14 @@ var transforms = []trPair{
 var typeIDs = map[reflect.Type]int{}
 var typeByID = []reflect.Type{}
 
+var zooFrozen bool
+
 func tid(t reflect.Type) int {
 	if id, ok := typeIDs[t]; ok {
 		return id
+	}
+	if zooFrozen {
+		panic("type " + t.String() + " is not part of the zoo definitions")
 	}
 	id := len(typeByID)
 	typeIDs[t] = id
@@ -398,7 +403,7 @@ func rootTypes() []reflect.Type {
 		[]int{}, []string{}, [2]string{}, [0]int{}, [][]int{}, []*int{}, []interface{}{}, map[string]int{}, map[string]interface{}{},
 		map[string][]byte{}, map[string]map[string]string{}, map[KeyStruct]string{}, map[TrNum]int{}, map[int]int{}, map[MyStr]int{},
 		(*int)(nil), (**string)(nil), (*[]int)(nil), (*Inner)(nil), (***Inner)(nil), (*interface{})(nil), []*Inner{}, map[string]*Rec{},
-		[]Shape{}, []TrNum{}, []KeyStruct{}, [2]TrBytes{}, func() {}, make(chan int), complex64(0),
+		[]Shape{}, []TrNum{}, []KeyStruct{}, [2]TrBytes{}, func() {}, make(chan int), complex64(0), (*int16)(nil),
 	} {
 		ts = append(ts, reflect.TypeOf(v))
 	}
@@ -433,17 +438,22 @@ func zooDefs() []string {
 		}
 		out = append(out, fmt.Sprintf("A %d %s %s", a.id, sortName(a.sort), body))
 	}
-	// describeEntry may have registered further types
-	for i := len(out) - len(atlases); false; i++ {
-	}
+	// dynamic types an untyped slot receives
+	var emptyIface interface{}
+	_ = emptyIface
+	out = append(out, fmt.Sprintf("Y %d %d %d %d %d %d %d %d %d", tid(reflect.TypeOf("")), tid(reflect.TypeOf([]byte{})),
+		tid(reflect.TypeOf(false)), tid(reflect.TypeOf(int(0))), tid(reflect.TypeOf(uint64(0))), tid(reflect.TypeOf(float64(0))),
+		tid(reflect.TypeOf(map[string]interface{}{})), tid(reflect.TypeOf([]interface{}{})), tid(reflect.TypeOf((*interface{})(nil)).Elem())))
 	seen := map[string]bool{}
 	for _, l := range out {
 		seen[strings.SplitN(l, " ", 3)[0]+" "+strings.SplitN(l, " ", 3)[1]] = true
+		_ = l
 	}
 	for i := 0; i < len(typeByID); i++ {
 		if !seen[fmt.Sprintf("T %d", i)] {
 			out = append(out, fmt.Sprintf("T %d %s", i, describeType(typeByID[i])))
 		}
 	}
+	zooFrozen = true
 	return out
 }
